@@ -69,7 +69,7 @@ DECLARED = {
     'add_response_adapter#0': R(writes=[('respadapt', 'set')]),
     'add_traverser#0': R(writes=[('traverser', 'set')]),
     'add_resource_url_adapter#0': R(writes=[('resurl', 'set')]),
-    'override_asset#0': R(writes=[('overrides', 'seq')]),
+    'override_asset#0': R(writes=[('overrides', 'seq')]),   # exercised by the census case
     'set_root_factory#0': R(writes=[('rootf', 'set')]),
     'set_session_factory#0': R(writes=[('sessf', 'set')]),
     'set_request_factory#0': R(writes=[('reqf', 'set')]),
@@ -245,3 +245,42 @@ def default_view_predicates(src, problems):
         problems.append('add_default_view_predicates unrecognised: %r' % e)
         return ['xhr', 'request_method', 'path_info', 'request_param', 'header', 'accept', 'containment',
                 'request_type', 'match_param', 'physical_path', 'is_authenticated', 'effective_principals', 'custom']
+
+
+def _eval_weight(node, n):
+    """restricted evaluation of the weight expression in the loop variable n"""
+    if isinstance(node, ast.Constant) and isinstance(node.value, int):
+        return node.value
+    if isinstance(node, ast.Name) and node.id == 'n':
+        return n
+    if isinstance(node, ast.BinOp):
+        a, b = _eval_weight(node.left, n), _eval_weight(node.right, n)
+        ops = {ast.LShift: lambda: a << b, ast.Add: lambda: a + b, ast.Sub: lambda: a - b, ast.Mult: lambda: a * b,
+               ast.BitOr: lambda: a | b, ast.Pow: lambda: a ** b}
+        if type(node.op) in ops and 0 <= b < 64:
+            return ops[type(node.op)]()
+    raise ValueError('unsupported weight expression')
+
+
+def predicate_weights(src, problems, count=24):
+    """weight of the predicate at position n, from `weights.append(<expr>)` in PredicateList.make"""
+    try:
+        tree = ast.parse(open(os.path.join(src, 'pyramid', 'config', 'predicates.py')).read())
+        found = []
+        for cls in tree.body:
+            if isinstance(cls, ast.ClassDef) and cls.name == 'PredicateList':
+                for fn in cls.body:
+                    if isinstance(fn, ast.FunctionDef) and fn.name == 'make':
+                        for node in ast.walk(fn):
+                            if isinstance(node, ast.Call) and isinstance(node.func, ast.Attribute) and node.func.attr == 'append' \
+                                    and isinstance(node.func.value, ast.Name) and node.func.value.id == 'weights' and len(node.args) == 1:
+                                found.append(node.args[0])
+        if len(found) != 1:
+            raise ValueError('%d weights.append sites' % len(found))
+        ws = [_eval_weight(found[0], n) for n in range(count)]
+        if any(w < 0 or w >= 1 << 40 for w in ws):
+            raise ValueError('weights out of range')
+        return ws, ast.unparse(found[0])
+    except Exception as e:
+        problems.append('predicate weight expression unrecognised: %r' % e)
+        return [1 << (n + 1) for n in range(count)], '1 << n + 1'
